@@ -168,6 +168,10 @@ def _elements_full(S, env, thorough):
     w6 = [0] * 6 + [1] + [0] * 5
     els = [[0] * 12, [1] + [0] * 11, w, w6, [p - 1] + [0] * 11, [3] + [0] * 10 + [5],
            [0, 0, p - 1, 0, 0, 0, 0, 2, 0, 0, 0, 0], [1] * 12, [p - 1] * 12]
+    # low-degree / subfield-shaped elements (degree < 6, even powers only, odd powers only)
+    els += [[3, 1] + [0] * 10, [2, 0, 0, 5, 0, 1] + [0] * 6, [g.randrange(p) for _ in range(6)] + [0] * 6,
+            [1, 0, 1] + [0] * 9, [g.randrange(p) if i % 2 == 0 else 0 for i in range(12)],
+            [g.randrange(p) if i % 2 == 1 else 0 for i in range(12)], [0] * 6 + [g.randrange(p) for _ in range(6)]]
     for _ in range(4 if not thorough else 12):
         els.append([g.randrange(p) for _ in range(12)])
     if thorough:
